@@ -8,7 +8,7 @@ import os
 import time
 
 from kv import gen
-from kv.common import digest, import_klepto, Scratch
+from kv.common import cwd_or_gone, digest, import_klepto, Scratch
 from kv.gen import enc, dec, backend_name
 
 klepto = import_klepto()
@@ -83,6 +83,9 @@ def value_pool(b, rng, u):
         return rng.choice(common + [[n, [2, 3]], {'k': [n, 2]}, True, float('inf')])
     if is_source(b):
         return rng.choice(common + [(n, 'a'), [n, [2, 3]], {'k': [n, 2]}, b'\x00\xff', True])
+    if b['kind'] in ('file', 'dir') and rng.random() < 0.004:
+        # a value whose pickle ends exactly on (or one byte around) a block boundary of the writers underneath
+        return {'__padded__': [rng.choice([1 << 16, 1 << 20]) + rng.choice([0, 0, 0, 1, -1]), b.get('protocol')]}
     return rng.choice(common + [(n, 'a'), [n, [2, 3]], {'k': [n, 2]}, b'\x00\xff', float('inf'), {n: 2},
                                 frozenset([n]), True, {'__fn__': n}])
 
@@ -92,7 +95,28 @@ def make_value(v):
     if isinstance(v, dict) and '__fn__' in v:
         n = v['__fn__']
         return eval('lambda x: x + %d' % n)
+    if isinstance(v, dict) and '__padded__' in v:
+        return padded_value(*v['__padded__'])
     return v
+
+
+_PADDED = {}
+
+
+def padded_value(target, proto):
+    """a bytes value whose pickle (dill, this protocol) is exactly `target` bytes long: block and buffer boundaries
+    (2**16, 2**20, ...) of the writers underneath an archive are where lengths go wrong"""
+    key = (target, proto)
+    if key not in _PADDED:
+        import dill
+        n = max(1, target - 32)
+        for _ in range(6):
+            L = len(dill.dumps(b'x' * n, protocol=proto))
+            if L == target:
+                break
+            n += target - L
+        _PADDED[key] = n
+    return b'x' * _PADDED[key]
 
 
 def same_value(a, b):
@@ -641,12 +665,12 @@ def _s(v):
 
 
 def run_case_c03(case):
-    cwd0 = os.getcwd()
+    cwd0 = cwd_or_gone()
     with Scratch('am') as root:
         r = Run03(case, root).run()
-        if os.getcwd() != cwd0:
+        if cwd_or_gone() != cwd0:
             r.bad('working-directory-changed', 'the operations left the process in %s (it started in %s): every archive '
-                  'addressed by a relative name now resolves elsewhere' % (os.getcwd(), cwd0))
+                  'addressed by a relative name now resolves elsewhere' % (cwd_or_gone(), cwd0))
             os.chdir(cwd0)
         for x in (r.a, r.other):
             conn = getattr(getattr(x, 'archive', x), '_conn', None)
@@ -1020,6 +1044,21 @@ def run_shard(prop, tier, seed, shard, nshards, opts):
             res['cases'] += 1
             res['counters']['directed_cases'] = res['counters'].get('directed_cases', 0) + 1
             res['violations'].extend(viol[:4])
+    if prop == 'C03':
+        # directed: values whose pickle is exactly one block (2**16, 2**20 bytes) long, one per shard and configuration
+        sized = [b for b in CONFIGS if b['kind'] in ('file', 'dir') and not is_source(b) and not is_json(b)]
+        for j, b in enumerate(sized):
+            if j % nshards != shard:
+                continue
+            for T in (1 << 20, 1 << 16):
+                pv = {'__padded__': [T, b.get('protocol')]}
+                ops = [['set', 'small', 1], ['set', 'blk', pv], ['get', 'blk'], ['len'], ['keys', 'blk'], ['get', 'small'],
+                       ['set', 'blk2', pv], ['pop', 'blk'], ['get', 'blk2'], ['len']]
+                case = {'backend': b, 'cached': j % 2 == 1, 'ops': ops, 'seed': 1, 'directed': True}
+                r, viol = run_case(case, prop)
+                res['cases'] += 1
+                res['counters']['c03_block_sized_value_cases'] = res['counters'].get('c03_block_sized_value_cases', 0) + 1
+                res['violations'].extend(viol[:4])
     i = shard
     while i < n_total and time.time() - t0 < budget:
         rng = gen.make_rng('archmon', prop, seed, i)
